@@ -297,11 +297,22 @@ def load_known():
 
 
 def deep_reduce_nesting(rec):
-    """Known-finding class KF1: reduce whose step returns its own context over a long collection."""
+    """Known-finding class KF1, and nothing else: a reduce whose step expression returns its own
+    context ({"var": ""} in any spelling of the whole-data key), over a collection of more than
+    1000 elements, observed to end the process (not to return a wrong value)."""
     try:
         w = rec["work"]
-        rule = json.dumps(w.get("rule"))
-        return '"reduce"' in rule and (len(json.dumps(w.get("data"))) > 20000)
+        rule = w.get("rule")
+        obs = rec.get("obs") or {}
+        if not (isinstance(rule, dict) and list(rule) == ["reduce"] and isinstance(rule["reduce"], list) and len(rule["reduce"]) == 3):
+            return False
+        step = rule["reduce"][1]
+        whole = [{"var": ""}, {"var": None}, {"var": []}, {"var": [""]}, {"var": [None]}]
+        if step not in whole:
+            return False
+        if not any(k in obs for k in ("abort", "timeout", "panic")):
+            return False
+        return len(json.dumps(w.get("data"))) > 2000
     except Exception:
         return False
 
